@@ -199,6 +199,19 @@ func (e *Exec) intrinsic(fn *ssa.Function, args []Value) (Value, bool) {
 		return nil, true
 	case "vSymbolic":
 		return smt.True, true
+	case "vAll", "vAny":
+		sl := args[0].(Slice)
+		var ts []*smt.Term
+		for i := 0; i < sl.Len; i++ {
+			ts = append(ts, sl.Arr.Val.(*Array).Elems[sl.Off+i].(*smt.Term))
+		}
+		if name == "vAll" {
+			return smt.And(ts...), true
+		}
+		return smt.Or(ts...), true
+	}
+	if strings.HasPrefix(name, "vEnv") {
+		return e.envIntrinsic(fn, args), true
 	}
 	if f, ok := extraIntrinsics[name]; ok {
 		return f(e, fn, args), true
